@@ -37,7 +37,7 @@ func init() { registerReplay("c17", checkC17) }
 var c17OpNames = []string{
 	"item.String", "item.ToBytes", "item.Variables", "item.Size", "item.Fill", "item.FillEllipsis",
 	"msg.String", "msg.ToBytes", "msg.Variables", "msg.Header", "msg.SetWaitBit", "msg.SetSession", "msg.Fill", "msg.SystemBytes",
-	"sml.Parse", "hsms.Parse", "build.List",
+	"sml.Parse", "hsms.Parse", "build.List", "hsms.ParseRejected", "hsms.ParseRejected", "sml.ParseRejected",
 }
 
 type c17Shared struct {
@@ -48,6 +48,8 @@ type c17Shared struct {
 	wire     []byte
 	fill     map[string]interface{}
 	efill    map[string]interface{}
+	rejected []byte
+	badText  string
 }
 
 func (s *c17Shared) run(op string) string {
@@ -96,6 +98,13 @@ func (s *c17Shared) run(op string) string {
 			return "rejected"
 		}
 		return string(m.ToBytes())
+	case "hsms.ParseRejected":
+		// a well-formed frame that only the message / item constructors refuse (panic + recover path of the decoder)
+		_, ok := hsms.Parse(s.rejected)
+		return fmt.Sprint("ok=", ok)
+	case "sml.ParseRejected":
+		msgs, errs, _ := sml.Parse(s.badText)
+		return fmt.Sprint(len(msgs), "|", strings.Join(errs, ";"))
 	case "build.List":
 		// a new list sharing the same child item
 		if len(s.item.Variables()) > 0 {
@@ -145,6 +154,20 @@ func checkC17(c c17Case) (ci caseInfo, err error) {
 		sh.text = strings.Replace(sh.text, ">", "> 1e999 >", 1)
 		sh.wire = append([]byte(nil), sh.wire[:len(sh.wire)-1]...)
 	}
+	// frames the decoder must reject through the constructors: W-bit on an even function, a NaN, a non-ASCII byte
+	switch c.Variant % 3 {
+	case 0:
+		sh.rejected = append([]byte(nil), sh.wire...)
+		if len(sh.rejected) >= 14 {
+			sh.rejected[6] |= 0x80
+			sh.rejected[7] &^= 1
+		}
+	case 1:
+		sh.rejected = patchLen(append(append([]byte(nil), c07Header...), 0x91, 0x04, 0x7F, 0xC0, 0x00, 0x01))
+	default:
+		sh.rejected = patchLen(append(append([]byte(nil), c07Header...), 0x41, 0x02, 0x61, 0xE9))
+	}
+	sh.badText = "S1F2 W H->E\n<L <A[2] \"abc\"> <U1 256> x x>\n."
 	ops := c.Ops
 	producers := 0
 	for _, op := range ops {
